@@ -114,8 +114,10 @@ theorem split_path_eq_spec (path : List Char) (minsegs : Nat) (maxsegs : Option 
 
 
 example : splitPath "/a/c/o/r".toList 1 (some 3) true
-    = .ok [some ['a'], some ['c'], some "o/r".toList] ∧ (1 ≤ 1) := by
-  simp [splitPath, effMax, pySplit, consHead, slice, finish]
+    = .ok [some ['a'], some ['c'], some "o/r".toList] ∧
+    splitPathSpec "/a/c/o/r".toList 1 (some 3) true = .ok [some ['a'], some ['c'], some "o/r".toList] ∧
+    splitPath "/a".toList 1 (some 2) false = .ok [some ['a'], none] := by
+  simp [splitPath, splitPathSpec, specSegs, splitAll, joinSep, effMax, pySplit, consHead, slice, finish]
 
 /-- the result always has exactly `maxsegs` entries (`minsegs` when `maxsegs` is None/0); this one
     needs no assumption on `minsegs` -/
@@ -341,6 +343,11 @@ theorem split_path_trailing_slash (rest : List Char) (minsegs : Nat) (maxsegs : 
     unfold specSegs; rw [splitAll_append_sep]; simp [hlen]
   simp only [↓reduceIte, e1, e2]
 
+example : (splitAll '/' "a/b/c".toList).length = 3 ∧ effMax 1 (some 1) + 1 < 3 ∧
+    (splitAll '/' "a/b".toList).length = effMax 2 none ∧
+    splitPath "/a/b/".toList 2 none false = .ok [some ['a'], some ['b']] := by
+  simp [splitPath, effMax, pySplit, consHead, slice, splitAll, finish]
+
 example : splitPath "/a//c".toList 2 (some 3) false = .error .valueError ∧
     (splitAll '/' "a//c".toList)[1]? = some [] := by
   simp [splitPath, effMax, pySplit, consHead, slice, splitAll]
@@ -397,54 +404,33 @@ example :
       ['"', 'a', ',', 'b', '"', ',', '"', '"', ',', '"', 'c', '\\', '"', '\\', '\\', '"', ',', 'd', ',', '"', ' ', '"'] := by
   decide
 
-/-- a failing tail still fails behind any well-formed prefix `item,item,…,` -/
+/-- a tail that fails whatever column it starts in still fails behind any well-formed prefix
+    `item,item,…,` (the prefix contains no TAB, so `expandtabs` only acts on the tail) -/
 theorem lemma_reject_wrap (pre : List (List Char)) (bad : List Char)
-    (hok : ∀ i ∈ pre, okItem i = true) (ht : '\t' ∉ bad)
-    (hbad : ∀ f, parseItems (f + 1) bad = .error .valueError) :
+    (hok : ∀ i ∈ pre, okItem i = true)
+    (hbad : ∀ col f, parseItems (f + 1) (expandTabs col bad) = .error .valueError) :
     splitByCommas (prefixStr pre ++ bad) = .error .valueError := by
   unfold splitByCommas parseAll
-  rw [expandTabs_notab _ _ (by
-    simp only [List.mem_append, not_or]; exact ⟨prefixStr_notab pre hok, ht⟩)]
+  rw [expandTabs_append, expandTabs_notab _ _ (prefixStr_notab pre hok)]
+  have hbad' := hbad (colAfter 0 (prefixStr pre))
+  generalize expandTabs (colAfter 0 (prefixStr pre)) bad = bad' at hbad' ⊢
   have hl := prefixStr_length pre
-  have := parseItems_prefix_error pre bad hok hbad ((prefixStr pre ++ bad).length - pre.length)
-  rw [show pre.length + ((prefixStr pre ++ bad).length - pre.length) + 1 = (prefixStr pre ++ bad).length + 1 by
+  have := parseItems_prefix_error pre bad' hok hbad' ((prefixStr pre ++ bad').length - pre.length)
+  rw [show pre.length + ((prefixStr pre ++ bad').length - pre.length) + 1 = (prefixStr pre ++ bad').length + 1 by
     simp; omega] at this
   exact this
 
-/-- **Unbalanced quotes.**  At an item position (start of the string or after `item,item,…,`), an
-    opening quote that is never closed — reading on, every later `"` is escaped by a backslash — is
-    rejected, whatever else the text contains. -/
-theorem split_commas_rejects_unbalanced (pre : List (List Char)) (body : List Char)
-    (hok : ∀ i ∈ pre, okItem i = true) (ht : '\t' ∉ body) (hb : noClosingQuote body = true) :
-    splitByCommas (prefixStr pre ++ '"' :: body) = .error .valueError := by
-  apply lemma_reject_wrap pre _ hok (by simp only [List.mem_cons, not_or]; exact ⟨by decide, ht⟩)
-  intro f
+theorem lemma_unbalanced (body : List Char) (hb : noClosingQuote body = true) (f : Nat) :
+    parseItems (f + 1) ('"' :: body) = .error .valueError := by
   simp only [parseItems]
   rw [skipWs_of_head _ (by intro c hc; simp at hc; subst hc; decide)]
   simp [parseItem, scanQuoted_noClosing body hb]
 
-/-- in particular an opening quote followed by any escaped text and no closing quote -/
-theorem split_commas_rejects_unclosed (pre : List (List Char)) (content : List Char)
-    (hok : ∀ i ∈ pre, okItem i = true) (ht : '\t' ∉ content) :
-    splitByCommas (prefixStr pre ++ '"' :: escape content) = .error .valueError :=
-  split_commas_rejects_unbalanced pre _ hok
-    (fun h => by rcases escape_mem _ _ h with h | h; exact ht h; revert h; decide)
-    (noClosingQuote_escape content)
-
-example : noClosingQuote ['a', '\\', '"', 'b', ','] = true ∧ ('\t' ∉ ['a', '\\', '"', 'b', ',']) := by decide
-
-/-- **Text after an item.**  After a complete item (either encoding) and optional whitespace, any
-    character other than a comma is rejected: `"a"b`, `"a" "b"`, `a b`, `a"b"` (for a bare item directly
-    followed by `c`, `c` must be a character that ends the word, e.g. a quote). -/
-theorem split_commas_rejects_text_after_item (pre : List (List Char)) (item e ws : List Char) (c : Char)
-    (rest : List Char) (hok : ∀ i ∈ pre, okItem i = true) (hi : okItem item = true) (he : IsEnc item e)
+theorem lemma_text_after_item (item e ws : List Char) (c : Char) (rest : List Char)
+    (hi : okItem item = true) (he : IsEnc item e)
     (hws : ∀ w ∈ ws, isWs w = true) (hc1 : isWs c = false) (hc2 : c ≠ ',')
-    (hstop : e = item → ws = [] → isWordChar c = false)
-    (ht : '\t' ∉ ws ++ c :: rest) :
-    splitByCommas (prefixStr pre ++ (e ++ (ws ++ c :: rest))) = .error .valueError := by
-  apply lemma_reject_wrap pre _ hok (by
-    simp only [List.mem_append, not_or]; exact ⟨lemma_isEnc_notab item e he hi, by simpa using ht⟩)
-  intro f
+    (hstop : e = item → ws = [] → isWordChar c = false) (f : Nat) :
+    parseItems (f + 1) (e ++ (ws ++ c :: rest)) = .error .valueError := by
   have hst : e = item → Stops (ws ++ c :: rest) := by
     intro hei x hx
     cases ws with
@@ -456,13 +442,62 @@ theorem split_commas_rejects_text_after_item (pre : List (List Char)) (item e ws
   rw [skipWs_append ws (c :: rest) hws (by intro x hx; simp at hx; subst hx; exact hc1)]
   simp [hc2]
 
+theorem lemma_empty_item (ws tail : List Char) (hws : ∀ w ∈ ws, isWs w = true)
+    (htail : tail = [] ∨ ∃ r, tail = ',' :: r) (f : Nat) :
+    parseItems (f + 1) (ws ++ tail) = .error .valueError := by
+  simp only [parseItems]
+  rcases htail with h | ⟨r, h⟩
+  · subst h
+    rw [skipWs_append ws [] hws (by simp)]
+    simp [parseItem]
+  · subst h
+    rw [skipWs_append ws (',' :: r) hws (by intro x hx; simp at hx; subst hx; decide)]
+    have : scanWord (',' :: r) = none := scanWord_none_of_not_word ',' r (by decide)
+    simp [parseItem, this]
+
+/-- **Unbalanced quotes.**  At an item position (start of the string or after `item,item,…,`), an
+    opening quote that is never closed — reading on, every later `"` is escaped by a backslash — is
+    rejected, whatever else the text contains. -/
+theorem split_commas_rejects_unbalanced (pre : List (List Char)) (body : List Char)
+    (hok : ∀ i ∈ pre, okItem i = true) (hb : noClosingQuote body = true) :
+    splitByCommas (prefixStr pre ++ '"' :: body) = .error .valueError := by
+  apply lemma_reject_wrap pre _ hok
+  intro col f
+  obtain ⟨col', hc⟩ := expandTabs_cons_nontab col '"' body (by decide)
+  rw [hc]
+  exact lemma_unbalanced _ (noClosingQuote_expandTabs col' body hb) f
+
+/-- in particular an opening quote followed by any escaped text and no closing quote -/
+theorem split_commas_rejects_unclosed (pre : List (List Char)) (content : List Char)
+    (hok : ∀ i ∈ pre, okItem i = true) :
+    splitByCommas (prefixStr pre ++ '"' :: escape content) = .error .valueError :=
+  split_commas_rejects_unbalanced pre _ hok (noClosingQuote_escape content)
+
+example : noClosingQuote ['a', '\\', '"', 'b', ',', '\t'] = true := by decide
+
+/-- **Text after an item.**  After a complete item (either encoding) and optional whitespace, any
+    character other than a comma is rejected: `"a"b`, `"a" "b"`, `a b`, `a"b"` (for a bare item directly
+    followed by `c`, `c` must be a character that ends the word, e.g. a quote). -/
+theorem split_commas_rejects_text_after_item (pre : List (List Char)) (item e ws : List Char) (c : Char)
+    (rest : List Char) (hok : ∀ i ∈ pre, okItem i = true) (hi : okItem item = true) (he : IsEnc item e)
+    (hws : ∀ w ∈ ws, isWs w = true) (hc1 : isWs c = false) (hc2 : c ≠ ',')
+    (hstop : e = item → ws = [] → isWordChar c = false) :
+    splitByCommas (prefixStr pre ++ (e ++ (ws ++ c :: rest))) = .error .valueError := by
+  apply lemma_reject_wrap pre _ hok
+  intro col f
+  have hct : c ≠ '\t' := by intro h; subst h; revert hc1; decide
+  rw [expandTabs_append, expandTabs_notab _ _ (lemma_isEnc_notab item e he hi), expandTabs_append]
+  obtain ⟨col', hc⟩ := expandTabs_cons_nontab (colAfter (colAfter col e) ws) c rest hct
+  rw [hc]
+  exact lemma_text_after_item item e _ c _ hi he (expandTabs_ws _ ws hws) hc1 hc2
+    (fun h1 h2 => hstop h1 (expandTabs_eq_nil _ _ h2)) f
+
 /-- **Text after a closing quote** (the quoted case of the previous theorem, no side condition) -/
 theorem split_commas_rejects_text_after_quote (pre : List (List Char)) (item ws : List Char) (c : Char)
     (rest : List Char) (hok : ∀ i ∈ pre, okItem i = true) (hi : okItem item = true)
-    (hws : ∀ w ∈ ws, isWs w = true) (hc1 : isWs c = false) (hc2 : c ≠ ',')
-    (ht : '\t' ∉ ws ++ c :: rest) :
+    (hws : ∀ w ∈ ws, isWs w = true) (hc1 : isWs c = false) (hc2 : c ≠ ',') :
     splitByCommas (prefixStr pre ++ (quote item ++ (ws ++ c :: rest))) = .error .valueError := by
-  refine split_commas_rejects_text_after_item pre item (quote item) ws c rest hok hi (Or.inl rfl) hws hc1 hc2 ?_ ht
+  refine split_commas_rejects_text_after_item pre item (quote item) ws c rest hok hi (Or.inl rfl) hws hc1 hc2 ?_
   intro h
   have : (quote item).length = item.length := by rw [h]
   simp [quote] at this
@@ -473,23 +508,42 @@ theorem split_commas_rejects_text_after_quote (pre : List (List Char)) (item ws 
     | cons a r ih => simp only [escape]; split <;> simp <;> omega
   omega
 
+example : isWs 'b' = false ∧ 'b' ≠ ',' ∧ (∀ w ∈ [' ', '\t'], isWs w = true) ∧ okItem ['a', ' '] = true := by
+  decide
+
 /-- **Empty unquoted item.**  At an item position, optional whitespace followed by the end of the
     string or by a comma is rejected: the empty string, `,a`, `a,,b`, `a,`, `a, ,b`. -/
 theorem split_commas_rejects_empty_item (pre : List (List Char)) (ws tail : List Char)
     (hok : ∀ i ∈ pre, okItem i = true) (hws : ∀ w ∈ ws, isWs w = true)
-    (htail : tail = [] ∨ ∃ r, tail = ',' :: r) (ht : '\t' ∉ ws ++ tail) :
+    (htail : tail = [] ∨ ∃ r, tail = ',' :: r) :
     splitByCommas (prefixStr pre ++ (ws ++ tail)) = .error .valueError := by
-  apply lemma_reject_wrap pre _ hok ht
-  intro f
-  simp only [parseItems]
+  apply lemma_reject_wrap pre _ hok
+  intro col f
+  rw [expandTabs_append]
+  refine lemma_empty_item _ _ (expandTabs_ws _ ws hws) ?_ f
   rcases htail with h | ⟨r, h⟩
-  · subst h
-    rw [skipWs_append ws [] hws (by simp)]
-    simp [parseItem]
-  · subst h
-    rw [skipWs_append ws (',' :: r) hws (by intro x hx; simp at hx; subst hx; decide)]
-    have : scanWord (',' :: r) = none := scanWord_none_of_not_word ',' r (by decide)
-    simp [parseItem, this]
+  · subst h; left; simp [expandTabs]
+  · subst h; right
+    obtain ⟨col', hc⟩ := expandTabs_cons_nontab (colAfter col ws) ',' r (by decide)
+    exact ⟨_, hc⟩
+
+/-- **Rejections** (the three classes of the property in one statement): behind any well-formed
+    prefix `item,item,…,` (possibly empty), (1) an opening quote with no unescaped closing quote,
+    (2) a quoted item followed — after optional whitespace — by anything but a comma, and (3) an empty
+    unquoted item (end of string or a comma where an item must start) all raise ValueError. -/
+theorem split_commas_rejects (pre : List (List Char)) (hok : ∀ i ∈ pre, okItem i = true) :
+    (∀ body, noClosingQuote body = true →
+      splitByCommas (prefixStr pre ++ '"' :: body) = .error .valueError) ∧
+    (∀ item ws c rest, okItem item = true → (∀ w ∈ ws, isWs w = true) → isWs c = false → c ≠ ',' →
+      splitByCommas (prefixStr pre ++ (quote item ++ (ws ++ c :: rest))) = .error .valueError) ∧
+    (∀ ws tail, (∀ w ∈ ws, isWs w = true) → (tail = [] ∨ ∃ r, tail = ',' :: r) →
+      splitByCommas (prefixStr pre ++ (ws ++ tail)) = .error .valueError) :=
+  ⟨fun body hb => split_commas_rejects_unbalanced pre body hok hb,
+   fun item ws c rest hi hws hc1 hc2 => split_commas_rejects_text_after_quote pre item ws c rest hok hi hws hc1 hc2,
+   fun ws tail hws ht => split_commas_rejects_empty_item pre ws tail hok hws ht⟩
+
+example : (∀ i ∈ [['a', ','], ['b']], okItem i = true) ∧
+    prefixStr [['a', ','], ['b']] = ['"', 'a', ',', '"', ',', 'b', ','] := by decide
 
 /-- every failure of `split_by_commas` is a ValueError: the parser's fuel (length of the input + 1)
     is never exhausted -/
